@@ -246,6 +246,10 @@ def main(ctx):
     spec("stat.cov2cor", dict(c=cov), lambda c: stat.cov2cor(c))
     spec("stat.cor2cov", dict(c=np.array([[1.0, 0.2], [0.2, 1.0]]), d=np.array([1.0, 2.0])),
          lambda c, d: stat.cor2cov(c, d))
+    cov3 = np.array([[4.0, 1.2, 0.3], [1.2, 9.0, -0.6], [0.3, -0.6, 1.0]])
+    spec("stat.cov2cor(3x3)", dict(c=cov3), lambda c: stat.cov2cor(c))
+    spec("stat.cor2cov(3x3)", dict(c=np.array([[1.0, 0.2, -0.1], [0.2, 1.0, 0.3], [-0.1, 0.3, 1.0]]), d=np.array([1.0, 2.0, 0.5])),
+         lambda c, d: stat.cor2cov(c, d))
     spec("stat.boxcar_average", dict(a=xx), lambda a: stat.boxcar_average(a, 2))
 
     # --- numpy_util
@@ -364,6 +368,7 @@ def main(ctx):
     spec("integrate.QGauss.integrate(data)", dict(x=np.array([0.0, 1.0, 3.0, 4.0]), y=np.array([1.0, 2.0, 0.0, 1.0])),
          lambda x, y: integrate.QGauss(5).integrate(x, y))
 
+    BASE_SPECS = list(SPECS)      # the hand-registered specifications (before the option products): used by near-equal-elements
     STRUCTURAL_EXTRA = []
     # ------------------------------------------------ option lattices (full products)
     # For every function below ALL combinations of its boolean / enumerated keyword options are
@@ -649,6 +654,81 @@ def main(ctx):
         rec.ok(case, outcome="long2:%s" % fname, nontrivial=True, calls=2)
 
     ctx.lattice("long-arguments-two-calls", [(fn_, n) for fn_ in LSPECS for n in LONGS], one_long2, bounds=dict(functions=sorted(LSPECS), lengths=LONGS))
+
+    # ---------------------------------------------------------------- near-equal elements
+    # A callee may treat two elements that agree to round-off as "the same value" and tidy them up (symmetrise a matrix,
+    # merge duplicates, snap to a neighbour).  Whether that happens is a relation between TWO positions of the argument,
+    # invisible to any sweep over dtypes/layouts with fixed well-separated values.  For every hand-registered call
+    # specification, every native float64 argument, every pair of positions i<j of that argument and every offset k in
+    # ULPS, element j is set to element i moved by k units in the last place (math.nextafter, nothing from esutil); the
+    # target "x~y" does the same between two arguments of equal shape (y[i] = x[i] moved by k ulps, all i).  All arguments
+    # are native contiguous float64 copies (the one layout np.asarray() hands back uncopied); everything is compared
+    # bit for bit after the call as in no-modification.
+    import math
+    ULPS = [-3, -1, 1, 2]
+
+    def ulp_shift(v, k):
+        v = float(v)
+        for _ in range(abs(k)):
+            v = math.nextafter(v, math.inf if k > 0 else -math.inf)
+        return v
+
+    def _isf8(b):
+        b = np.asarray(b)
+        return b.dtype == np.dtype("f8") and b.dtype.isnative and b.size >= 1
+
+    def one_near(case, rec):
+        sname, target, k = case
+        if "d" not in tmpd or tmpd.get("owner") is not rec:
+            tmpd["d"] = rec.tmp
+            tmpd["owner"] = rec
+        arrays, fn = SPECS[sname]
+        if "~" in target:
+            src, dst = target.split("~")
+            plans = [(src, dst, None, None)]
+        else:
+            n = np.asarray(arrays[target]).size
+            plans = [(target, target, i, j) for i in range(n) for j in range(i + 1, n)]
+        ncalls = 0
+        for src, dst, i, j in plans:
+            args = {kk: np.array(b, copy=True, order="C") for kk, b in arrays.items()}
+            if i is None:
+                flat = args[dst].reshape(-1)
+                for p, v in enumerate(args[src].reshape(-1).tolist()):
+                    flat[p] = ulp_shift(v, k)
+            else:
+                flat = args[dst].reshape(-1)
+                flat[j] = ulp_shift(flat[i], k)
+            snaps = {kk: snapshot(v) for kk, v in args.items()}
+            vals = {kk: np.asarray(v).tolist() for kk, v in args.items()}
+            err = None
+            try:
+                fn(**args)
+            except Exception as e:
+                err = "%s: %s" % (type(e).__name__, str(e)[:100])
+            ncalls += 1
+            for kk, v in args.items():
+                if snapshot(v) != snaps[kk]:
+                    return rec.fail(case, "argument %r was modified: %s; arguments before the call %r, argument %r after it %r%s" % (
+                        kk, ("element %d = element %d %+d ulp" % (j, i, k)) if i is not None else ("%s = %s %+d ulp" % (dst, src, k)),
+                        vals, kk, np.asarray(v).tolist(), "; the call raised " + err if err else ""))
+        rec.ok(case, outcome="near:%+d" % k, nontrivial=True, calls=ncalls)
+
+    near_units = []
+    for sname in BASE_SPECS:
+        if sname.startswith("wcs.sky2image") and ",find)" in sname:
+            continue          # iterative inversion: ~100x the cost of the other calls, same entry conversion as nofind
+        arrays = SPECS[sname][0]
+        f8 = [kk for kk, b in arrays.items() if _isf8(b)]
+        for kk in f8:
+            if np.asarray(arrays[kk]).size >= 2:
+                near_units.extend((sname, kk, k) for k in ULPS)
+        for x in range(len(f8)):
+            for y in range(x + 1, len(f8)):
+                if np.asarray(arrays[f8[x]]).shape == np.asarray(arrays[f8[y]]).shape:
+                    near_units.extend((sname, "%s~%s" % (f8[x], f8[y]), k) for k in ULPS)
+    ctx.lattice("near-equal-elements", near_units, one_near, bounds=dict(specs=len(BASE_SPECS), ulps=ULPS,
+                positions="every pair i<j of each float64 argument; every pair of equal-shape float64 arguments"))
 
     ctx.quiet_workers = True
     ctx.lattice("no-modification", units, one, bounds=dict(specs=len(SPECS), variants=VARIANTS))
